@@ -236,27 +236,32 @@ Definition dec_kitty_keyboard (data : list N) : option tev :=
 
 (* ---- 7 MouseEventMatcher ---- *)
 Definition last_byte (data : list N) : N := last data 0.
-(* button / modifier decoding of the first parameter; `press` = the final byte is 'M' *)
-Definition mouse_fields (event : N) (press : bool) : mname * N :=
+(* button / modifier decoding of the first parameter; `press` = the final byte is 'M';
+   None: a button the library has no name for (bit 7, horizontal wheel) *)
+Definition mouse_fields (event : N) (press : bool) : option (mname * N) :=
   let mode := mod_from_bits (N.land (N.shiftr event 2) 7) in
   let mode := if press then N.lor mode MOD_PRESS else mode in
   let button := N.land event 3 in
-  let name :=
-    if negb (N.land event 64 =? 0) then
-      (if button =? 0 then MWheelDown else if button =? 1 then MWheelUp else MMove)
-    else if button =? 0 then MLeft
-    else if button =? 1 then MMiddle
-    else if button =? 2 then MRight
-    else MMove in
-  (name, mode).
+  if negb (N.land event 128 =? 0) || (negb (N.land event 64 =? 0) && (1 <? button)) then None
+  else
+    let name :=
+      if negb (N.land event 64 =? 0) then
+        (if button =? 0 then MWheelDown else if button =? 1 then MWheelUp else MMove)
+      else if button =? 0 then MLeft
+      else if button =? 1 then MMiddle
+      else if button =? 2 then MRight
+      else MMove in
+    Some (name, mode).
 
 Definition dec_mouse (data : list N) : option tev :=
   match numbers_decode (sl 3 1 data) 59 with
   | event :: c :: r :: _ =>
       match checked_dec c, checked_dec r with
       | Some col, Some row =>
-          let '(name, mode) := mouse_fields event (last_byte data =? 77) in
-          Some (EMouse name mode row col)
+          match mouse_fields event (last_byte data =? 77) with
+          | Some (name, mode) => Some (EMouse name mode row col)
+          | None => None
+          end
       | _, _ => None
       end
   | _ => None
